@@ -182,6 +182,19 @@ func (c *checker) allPDR(thorough bool) {
 				c.pdr(s, nil, nil, "sdf")
 			}
 		}
+		// QER ids and URR ids are separate namespaces: lists whose numeric values coincide, in the constructors'
+		// child order and reversed (URR ids before QER ids)
+		for _, ids := range [][2][]uint32{{{1}, {1}}, {{1, 2}, {2, 5, 1}}, {{7}, {9, 7}}, {{0xffffffff, 0}, {0, 0xffffffff}}} {
+			s := basePDR(update)
+			s.qers, s.urrs = ids[0], ids[1]
+			c.pdr(s, nil, nil, "qer-urr-same-values")
+			n := len(s.children(nil))
+			rev := make([]int, n)
+			for i := range rev {
+				rev[i] = n - 1 - i
+			}
+			c.pdr(s, rev, nil, "qer-urr-same-values")
+		}
 		if thorough {
 			// pairs of boundary values
 			bv := []uint32{0, 0xffffffff, 0x80000000}
